@@ -393,6 +393,8 @@ class Result:
         self.functions = []        # qualified names of extracted (verified) fns
         self.assumed = []          # external_body fns
         self.clause_ids = []       # all labelled ids, in order
+        self.canary_fns = []
+        self.canary_lines = {}
 
     def fn_at(self, line):
         for f in self.fnspans:
@@ -420,6 +422,35 @@ class Result:
 
 CLAUSE_KW = {'requires', 'ensures', 'decreases', 'returns', 'opens_invariants', 'no_unwind', 'recommends',
              'default_ensures'}
+
+
+def add_canary(spec, n):
+    """Vacuity canary: add `ensures canary__N() ==> false` (canary__N an uninterpreted per-function boolean, so a
+    caller learns nothing useful from a callee's canary).  Verus must REJECT this clause for every function."""
+    toks = lex(spec)
+    depth = 0
+    ens = None
+    nxt = None
+    for t in toks:
+        if t.kind == 'punct' and t.text in '([{':
+            depth += 1
+        elif t.kind == 'punct' and t.text in ')]}':
+            depth -= 1
+        elif depth == 0 and t.kind == 'ident' and t.text in CLAUSE_KW:
+            if t.text == 'ensures' and ens is None:
+                ens = t
+            elif ens is not None and nxt is None:
+                nxt = t
+    clause = 'canary__%d() ==> false,\n' % n
+    if ens is not None:
+        return spec[:ens.end] + '\n        ' + clause + spec[ens.end:]
+    dk = [t for t in toks if t.kind == 'ident' and t.text == 'decreases']
+    if dk:
+        return spec[:dk[0].start] + 'ensures ' + clause + spec[dk[0].start:]
+    sp = spec.rstrip()
+    if sp and not sp.endswith(','):
+        sp += ','
+    return sp + '\n    ensures ' + clause
 
 
 def canary_spec(spec):
@@ -702,10 +733,16 @@ class Extractor:
             out.add(fs.attr)
         out.add(_strip_trailing_newline(sig.rstrip()))
         spec = fs.spec
-        if canary == qual:
-            spec = canary_spec(spec)
+        if canary and not fs.external_body:
+            spec = add_canary(spec, len(res.canary_fns))
+            res.canary_fns.append(qual)
         if spec.strip():
+            s0 = out.lineno
             out.add(spec, label_scan=True)
+            if canary and not fs.external_body:
+                for ln in range(s0, out.lineno):
+                    if 'canary__%d()' % (len(res.canary_fns) - 1) in out.lines[ln - 1]:
+                        res.canary_lines[ln] = qual
         segs = self._splice_body(body, fs, where) if not fs.external_body else [(body, False)]
         repo_line = body_line
         seg_maps = []
@@ -835,12 +872,17 @@ class Extractor:
             lab = '[%s] ' % d['id'] if d.get('id') else ''
             out.add('exec const %s: %s' % (m.group(1), m.group(2)))
             out.add('    ensures %s%s,' % (lab, d['exec']), label_scan=True)
+            if self._canary:
+                out.add('        canary__%d() ==> false,' % len(res.canary_fns))
+                res.canary_lines[out.lineno - 1] = qual
+                res.canary_fns.append(qual)
             out.add('{ %s }' % m.group(3))
             res.functions.append(qual)
             return
         out.add(text, region='code')
 
-    def run(self, vspec_path, canary=None):
+    def run(self, vspec_path, canary=False):
+        self._canary = canary
         unit, nodes = parse_vspec(vspec_path)
         out = Out()
         res = Result()
@@ -900,6 +942,8 @@ class Extractor:
                     raise Undecided('unknown node %s' % nd[0])
 
         walk(nodes, None)
+        for n in range(len(res.canary_fns)):
+            out.add('pub uninterp spec fn canary__%d() -> bool;' % n)
         out.add('} // verus!')
         out.add('fn main() {}')
         res.text = out.text()
@@ -920,7 +964,7 @@ if __name__ == '__main__':
     ap.add_argument('vspec')
     ap.add_argument('--repo', default='/repo')
     ap.add_argument('-o', '--out', default='-')
-    ap.add_argument('--canary')
+    ap.add_argument('--canary', action='store_true')
     a = ap.parse_args()
     try:
         r = Extractor(a.repo).run(a.vspec, a.canary)
